@@ -361,6 +361,12 @@ CONTRACTS.append(Contract(
         ('every-listed-name-exists', ForAll([n_], Implies(
             z3.Contains(c.res, z3.Unit(n_)),
             vexists(c, pjoin(c.dir_, n_), c.created_files))), ['C04']),
+        # C04 ("list_dir(d) is the set of names n with exists(d/n)"), the other inclusion, for
+        # queries made during the build (no replay overlay): every child that exists is listed
+        ('every-existing-child-is-listed', Implies(OCF.is_none(c.created_files), ForAll(
+            [ch_], Implies(And(dirname(ch_) == c.dir_, ch_ != c.dir_,
+                               vexists(c, ch_, c.created_files)),
+                           z3.Contains(c.res, z3.Unit(basename(ch_)))))), ['C04']),
     ],
     raises=[
         ExcSpec('NotADirectoryError', ensures=lambda c: no_effect(c) + [
@@ -382,7 +388,13 @@ CONTRACTS.append(Contract(
         ('collected-exist', ForAll([n_], Implies(
             z3.Contains(c.v('subfiles'), z3.Unit(n_)),
             Or(vfile(c, pjoin(c.dir_, n_), c.created_files, 'new'),
-               vdir(c, pjoin(c.dir_, n_), c.created_files, 'new')))))])},
+               vdir(c, pjoin(c.dir_, n_), c.created_files, 'new'))))),
+        ('visited-existing-names-are-collected', ForAll([n_], Implies(
+            And(c.loop['seen'][n_],
+                Or(vfile(c, pjoin(c.dir_, n_), c.created_files, 'new'),
+                   vdir(c, pjoin(c.dir_, n_), c.created_files, 'new'))),
+            z3.Contains(c.v('subfiles'), z3.Unit(n_)))))])},
+    lemmas=['PATHS'],
 ))
 
 
